@@ -2,7 +2,7 @@
 functions that talk about them."""
 import z3
 
-from ..pyvc.values import (SInt, SBool, SStr, SKind, SKindSet, SOpt, Ref, ObjCell, StreamCell, TokList, Tok,
+from ..pyvc.values import (Opaque, SInt, SBool, SStr, SKind, SKindSet, SOpt, Ref, ObjCell, StreamCell, TokList, Tok,
                            HistList, Builtin, ListCell, KINDS, int_term, mk_int, mk_bool, bool_term, fresh_name,
                            Raised, ExcVal)
 from ..pyvc.spec import SpecError
@@ -93,6 +93,8 @@ def make_scope(E, st, name="scope", cls=None):
         "lvl": SInt(z3.Int(fresh_name(name + "_lvl"))),
         "indent": SInt(z3.Int(fresh_name(name + "_indent"))),
         "multiline": SBool(z3.Bool(fresh_name(name + "_multiline"))),
+        "__base__": "norminette/scope.py:Scope",
+        "parent": Opaque(name + ".parent"),
         "vdeclarations_allowed": SOpt(z3.Bool(fresh_name(name + "_vda_none")),
                                       SBool(z3.Bool(fresh_name(name + "_vda")))),
     }
